@@ -89,6 +89,15 @@ def run(chk):
         reqs.append((("assign", P, v2), d))                                   # 5 put v2
     out = evalcheck.impl_eval(reqs)
     nviol = 0
+    # the same updates on the same documents read by the YAML decoder (explicit nulls, line numbers): same results
+    ny = 6 * (1200 if thorough else 200)
+    yout = evalcheck.impl_eval(reqs[:ny], fmt="yaml")
+    for (e_, d_), a_, b_ in zip(reqs[:ny], out[:ny], yout):
+        chk.count(("yamlin", evalgen.render(e_), json.dumps(d_)), nontrivial=a_.startswith(b"OK\n"))
+        if a_ != b_ and a_.startswith(b"OK") and nviol < 8:
+            nviol += 1
+            chk.violation({"kind": "yamlin", "expr": evalgen.render(e_), "doc": d_, "impl": b_.decode("utf-8", "replace"), "expect": a_.decode("utf-8", "replace")}, True,
+                          "the update gives a different document when the same text is read by the YAML decoder: " + evalgen.render(e_))
     for k, (d, p, v1, v2) in enumerate(laws):
         o = out[6 * k:6 * k + 6]
         P = evalgen.render(path_expr(p))
@@ -145,6 +154,15 @@ def run(chk):
         hist.append(("override", d, ("pipe", ("assign", below, v2), ("assign", P, w)), ("assign", P, w)))
         hist.append(("override-get", d, ("pipe", ("pipe", ("assign", below, v2), ("assign", P, w)), P), ("pipe", ("collect", w), ("index", ("self",), None))))
         hist.append(("update-first", d, ("update", P, ("union", w, v2)), ("update", P, w)))
+        # a copy is independent of its source: writing below the copy (also inside an EMPTY collection of it) leaves the source alone
+        conts = [q for q in evalgen.doc_paths(d) if q and isinstance(evalgen._get(d, q), (dict, list))] if isinstance(d, dict) else []
+        if conts:
+            cq = chk.rng.choice(conts)
+            inner = [r_ for r_ in evalgen.doc_paths(evalgen._get(d, cq)) if isinstance(evalgen._get(evalgen._get(d, cq), r_), (dict, list))]
+            ir = chk.rng.choice(inner) if inner else ()
+            tgt = evalgen._get(evalgen._get(d, cq), ir)
+            step = (len(tgt),) if isinstance(tgt, list) else ("nn",)
+            hist.append(("copy-frame", d, ("pipe", ("pipe", ("assign", ("getkey", "zz"), path_expr(cq)), ("assign", path_expr(("zz",) + tuple(ir) + step), w)), path_expr(cq)), path_expr(cq)))
         kk = chk.rng.choice(evalgen.KEYS)
         # with(p; u) runs u at p, creating p like an assignment does
         hist.append(("with", d, ("with", P, ("assign", ("getkey", kk), w)), ("assign", path_expr(p + (kk,)), w)))
@@ -323,6 +341,9 @@ def unser_json(b):
 
 
 def replay(rp):
+    if rp.get("kind") == "yamlin":
+        b = evalcheck.impl_eval([(rp["expr"], rp["doc"])], fmt="yaml")[0]
+        return b.decode("utf-8", "replace") == rp["expect"]
     if rp.get("kind") == "law":
         b = evalcheck.impl_eval([(rp["expr"], rp["doc"])])[0]
         return b.decode("utf-8", "replace") == rp["expect"] if rp["law"] != "frame" else True
